@@ -4,10 +4,29 @@ Self-contained frame oracle: the dump (events and metadata) of every bucket othe
 addressed one, taken immediately before and immediately after each operation, must be
 identical; the operation itself may succeed or be rejected."""
 from sim import actors, gen
-from sim.common import Violation, short
+import collections
+
+from sim.common import Violation, expect_tuple, short
 from sim.rng import Streams, derive
 from sim.runner import Check
 from sim.world import BACKENDS
+
+
+class StaleWriter(actors.Party):
+    """Writes through a Bucket handle obtained before the bucket was deleted."""
+
+    name = "stale"
+
+    def __init__(self, r, cfg, buckets):
+        super().__init__(r, cfg)
+        self.buckets = buckets
+
+    def step(self):
+        r = self.r
+        b = r.choice(self.buckets)
+        if r.random() < 0.5:
+            return {"op": "insert_stale", "b": b, "ev": self.ev()}
+        return {"op": "insert_stale", "b": b, "evs": [{"ev": self.ev()} for _ in range(r.randrange(1, 4))]}
 
 
 class C04(Check):
@@ -21,7 +40,7 @@ class C04(Check):
         "at least one mutating operation addressed bucket A executed while another bucket held events; distinct = "
         "distinct (backend, executed op-kind sequence)"
     )
-    expected_probes = ["foreign_id_used", "frame_checked_with_populated_other", "op_rejected", "tie_endtime_across_buckets", "restart_clean"]
+    expected_probes = ["foreign_id_used", "frame_checked_with_populated_other", "op_rejected", "tie_endtime_across_buckets", "restart_clean", "observation_deferred", "frame_checked_with_buffered_writes_elsewhere", "insert_through_stale_handle"]
     assumptions = [
         "callers are serialised (one API call at a time), as aw-server does",
         "the unwindowed read get(limit=-1) and buckets() are faithful observers of a bucket (C02/C05 cover that)",
@@ -49,26 +68,51 @@ class C04(Check):
             parties.append(actors.Editor(rs["edit%d" % k], cfg, b))
             if r.random() < 0.5:
                 parties.append(actors.Watcher(rs["watch%d" % k], cfg, b, r.choice([0, 0.5, 1, 5])))
-        parties.append(actors.Admin(rs["admin"], cfg, buckets))
+        parties.append(actors.Admin(rs["admin"], cfg, buckets + ["ghost"]))
+        parties.append(StaleWriter(rs["stale"], cfg, buckets))
+        defer = r.random() < 0.4
         if backend != "memory":
             parties.append(actors.Operator(rs["oper"], {"dirty_p": 0.0}))
-        weights = {"importer": 1.0, "editor": 2.0, "admin": 0.35, "watcher": 0.7, "operator": 0.15}
+        weights = {"importer": 1.0, "editor": 2.0, "admin": r.choice([0.35, 0.35, 1.0]), "watcher": 0.7, "operator": 0.15, "stale": 0.25}
+        if defer:
+            # rejected operations on A while other buckets hold buffered writes
+            weights.update(importer=2.5, editor=1.0, admin=1.5, stale=0.8, watcher=0.3)
         nsteps = r.choice([3, 6, 10, 20, 40])
         steps += actors.schedule(rs["sched"], parties, weights, nsteps)
-        return {"backend": backend, "steps": steps, "lat": lat}
+        return {"backend": backend, "steps": steps, "lat": lat, "defer": defer}
 
-    MUTATING = {"insert1", "insertN", "replace", "replace_last", "delete", "update", "delete_bucket", "create", "heartbeat"}
+    MUTATING = {"insert1", "insertN", "replace", "replace_last", "delete", "update", "delete_bucket", "create", "heartbeat", "insert_stale"}
 
     def before(self, world, step, i):
         self._before = world.view
 
     def after(self, world, step, out, i):
         before = self._before
-        after = world.refresh_view()
         op = step["op"]
-        if op not in self.MUTATING:
+        self._last_exc = out.get("exc")
+        # deferred observation: after a plain insert the harness does NOT read (a read would flush the
+        # lazily-committing store); the expected contents are carried forward instead, so the next
+        # operation on another bucket runs while these acknowledged writes are still buffered
+        if self._defer and op in ("insert1", "insertN") and out.get("exc") is None and all("upsert" not in it and "foreign" not in it for it in step.get("evs", [])):
+            evs = [step["ev"]] if op == "insert1" else [it["ev"] for it in step["evs"]]
+            self._pending[step["b"]].extend(expect_tuple(E) for E in evs)
+            world.probes["observation_deferred"] += 1
             return
-        a = step["b"]
+        after = world.refresh_view()
+        pending, self._pending = self._pending, collections.defaultdict(list)
+        if op not in self.MUTATING:
+            if op in ("restart_clean", "new_datastore") or not any(pending.values()):
+                return
+            a = None
+        else:
+            a = step["b"]
+        if any(v for b, v in pending.items() if b != a):
+            world.probes["frame_checked_with_buffered_writes_elsewhere"] += 1
+            self._frame_pending(world, op, a, before, after, pending)
+            return
+        if a is None:
+            return
+        self._last_exc = out.get("exc")
         if out.get("exc") is not None:
             world.probes["op_rejected"] += 1
         populated_other = False
@@ -104,8 +148,37 @@ class C04(Check):
                         world.probes["tie_endtime_across_buckets"] += 1
                         break
 
+    def _frame_pending(self, world, op, a, before, after, pending):
+        """Frame check when other buckets hold acknowledged, not yet observed inserts."""
+        for b in sorted(before):
+            if b == a:
+                continue
+            if b not in after:
+                raise Violation("frame_metadata", "%s on bucket %r made bucket %r disappear" % (op, a, b), {"op": op})
+            if before[b]["meta"] != after[b]["meta"]:
+                raise Violation("frame_metadata", "%s on bucket %r changed metadata of bucket %r" % (op, a, b), {"op": op})
+            old = {t[0]: t for t in before[b]["events"]}
+            now = {t[0]: t for t in after[b]["events"]}
+            for i, t in old.items():
+                if now.get(i) != t:
+                    raise Violation("frame_events", "%s on bucket %r changed events of bucket %r: %s -> %s" % (op, a, b, short(t, 160), short(now.get(i), 160)), {"op": op})
+            fresh = sorted(t[1:] for i, t in now.items() if i not in old)
+            want = sorted(pending.get(b, []))
+            if fresh != want:
+                lost = [x for x in want if x not in fresh]
+                raise Violation(
+                    "frame_events",
+                    "%s on bucket %r (%s) lost or altered %d acknowledged, still buffered writes of bucket %r, e.g. %s; unexpected: %s"
+                    % (op, a, "rejected" if self._last_exc else "accepted", len(lost), b, short(lost[:1], 160), short([x for x in fresh if x not in want][:1], 160)),
+                    {"op": op, "kind": "buffered"},
+                )
+        self._nontrivial = True
+
     def start(self, world, run):
         self._nontrivial = False
+        self._defer = bool(run.get("defer"))
+        self._pending = collections.defaultdict(list)
+        self._last_exc = None
         super().start(world, run)
 
     def after_skip(self, world, step, out, i):
